@@ -132,11 +132,31 @@ Fixpoint rems_ok (fs : list feed) : bool :=
 Fixpoint nodupz (l : list Z) : bool :=
   match l with [] => true | x :: t => negb (memz x t) && nodupz t end.
 
-(* schedules the property quantifies over: one epoch length n0 >= 0, distinct (t0,key), every
-   request visible within the look-back, removals not ahead of their requests *)
-Definition wf_sched (B n0 : Z) (fs : list feed) : bool :=
-  (0 <=? B) && (0 <=? n0) &&
-  forallb (fun r => r_n r =? n0) (all_reqs fs) &&
+(* the three tests one send applies to a request (rems = keys on the removed queue, T = samples
+   received including the chunk being sent) *)
+Definition notrem (rems : list Z) (r : request) : bool := negb (memz (r_key r) rems).
+Definition ready (T : Z) (r : request) : bool := r_lo r + r_n r <=? T.
+Definition nready (T : Z) (r : request) : bool := negb (ready T r).
+
+(* epochs that become complete at the same send have the same length (they are stacked into one
+   array).  W: requests waiting before fs, T: samples received before fs.  Computed from chunk
+   lengths, request bounds and removals only. *)
+Definition uniform_n (X : list request) : bool :=
+  match X with [] => true | x :: t => forallb (fun y => r_n y =? r_n x) t end.
+Fixpoint lengths_ok (T : Z) (W : list request) (fs : list feed) : bool :=
+  match fs with
+  | [] => true
+  | f :: rest =>
+    let T1 := T + zlen (f_chunk f) in
+    let lv := filter (notrem (f_rems f)) (W ++ f_reqs f) in
+    uniform_n (filter (ready T1) lv) && lengths_ok T1 (filter (nready T1) lv) rest
+  end.
+
+(* schedules the property quantifies over: look-back B >= 0, epoch lengths n >= 0, epochs completing
+   at the same send equally long, distinct (t0,key), every request visible within the look-back,
+   removals not ahead of their requests *)
+Definition wf_sched (B : Z) (fs : list feed) : bool :=
+  (0 <=? B) && forallb (fun r => 0 <=? r_n r) (all_reqs fs) && lengths_ok 0 [] fs &&
   nodupz (req_keys fs) && visible B fs && rems_ok fs.
 
 (* ---- used by the generated correspondence files: model and spec agree on this schedule ---- *)
